@@ -285,6 +285,24 @@ func (p *Program) resolveQual(pkgPath, q string) string {
 			return o.PkgPath
 		}
 	}
+	// a package imported under that name anywhere in the module (contracts may name types of
+	// packages their own package does not import)
+	for _, o := range p.pkgs {
+		for _, f := range o.Syntax {
+			for _, im := range f.Imports {
+				path := strings.Trim(im.Path.Value, "\"")
+				name := ""
+				if im.Name != nil {
+					name = im.Name.Name
+				} else if ip := o.Imports[path]; ip != nil {
+					name = ip.Name
+				}
+				if name == q {
+					return path
+				}
+			}
+		}
+	}
 	return q
 }
 
